@@ -361,6 +361,33 @@ def thin_bar_scenario(r, parse_overflow=False):
     return [(CODEPOINTS[0], (0, 0, 100, 100), [donor]), (CODEPOINTS[1], (0, 0, 100, 100), [copy])]
 
 
+USER_TRANSFORMS = ["matrix(0.9 0 0.1 0.9 20 10)", "rotate(15)", "scale(1.1 0.8)", "matrix(0.8 0.3 -0.2 1.1 30 -20)",
+                   "translate(0, -50)", "matrix(-1 0 0 1 1200 0)", "matrix(1 0.2 0 1 0 0)"]
+
+
+def transform_fill_grid():
+    """Every user transform kind (skew, rotation, non-uniform scale, general affine, translation, mirror) x every gradient
+    kind (linear / radial, both unit systems, gradientTransform, focal point, spread): one glyph of two layers each.
+    -> [(label, transform string, glyphs)]"""
+    st = [(0.0, PALETTE[0], 1), (0.55, PALETTE[6], 0.5), (1.0, PALETTE[3], 1)]
+    fills = {
+        "linear-bbox": FillSpec("linear", stops=st, units="objectBoundingBox", spread="pad", gt=None, geom=(0.1, 0.2, 0.9, 0.6)),
+        "linear-user-gt": FillSpec("linear", stops=st, units="userSpaceOnUse", spread="reflect", gt="rotate(30)", geom=(0.1, 0.1, 0.6, 0.5)),
+        "radial-bbox": FillSpec("radial", stops=st, units="objectBoundingBox", spread="pad", gt=None, geom=(0.5, 0.5, 0.5), focal=None),
+        "radial-user-gt": FillSpec("radial", stops=st, units="userSpaceOnUse", spread="repeat", gt="matrix(1.5 0 0 0.7 0 0)", geom=(0.4, 0.5, 0.25), focal=None),
+        "radial-focal": FillSpec("radial", stops=st, units="objectBoundingBox", spread="pad", gt="matrix(0.8 0.3 -0.2 1.1 0.05 0.02)",
+                                 geom=(0.5, 0.5, 0.45), focal=(0.4, 0.55, 0.05)),
+    }
+    out = []
+    for ti, t in enumerate(USER_TRANSFORMS):
+        for fi, (name, fill) in enumerate(fills.items()):
+            cls = ["poly:5", "blob:3", "F", "ellipse"][(ti + fi) % 4]
+            layers = [LayerSpec(cls, (7, 0, 0, 7, 42, 48), fill, 1.0),
+                      LayerSpec("T", (5, 2, -2, 5, 70, 30), FillSpec("solid", color=PALETTE[(ti + fi) % len(PALETTE)], index=None), 0.5)]
+            out.append((f"{t} x {name}", t, [(CODEPOINTS[0], (0, 0, 100, 100), layers)]))
+    return out
+
+
 TINY_CONFIG = {"upem": 2048, "ascender": 1638, "descender": -410, "width": 2048}   # 20.48 units per viewBox unit
 
 
